@@ -135,7 +135,7 @@ func goroutines(pred func(header, body string) bool) int {
 // waitUntil polls cond (stack inspection) until it holds; false after the time-out, which is
 // only reached when the code under test hangs.
 func waitUntil(cond func() bool) bool {
-	deadline := time.Now().Add(20 * time.Second)
+	deadline := time.Now().Add(10 * time.Second)
 	for i := 0; ; i++ {
 		if cond() {
 			return true
@@ -565,6 +565,9 @@ func (ol *osLayer) afterCancel(rnd *hx.Rand, scs []osScanner, k int) []string {
 		return []string{"cannot open layer: " + err.Error()}
 	}
 	defer l.Close()
+	// references of earlier, cancelled users of other layers may still be on their way out
+	waitUntil(func() bool { return gcWaiting() == 0 })
+	gcBase := gcWaiting()
 	dead, kill := context.WithCancel(context.Background())
 	askFor := ol.cands[rnd.Intn(len(ol.cands))].path
 	firstDone := make(chan struct{})
@@ -601,7 +604,7 @@ func (ol *osLayer) afterCancel(rnd *hx.Rand, scs []osScanner, k int) []string {
 		case <-time.After(20 * time.Second):
 			bad = append(bad, "the cancelled caller does not return")
 		}
-		waitUntil(func() bool { return gcWaiting() == 0 })
+		waitUntil(func() bool { return gcWaiting() <= gcBase })
 		close(g.release)
 	}
 	<-firstDone
